@@ -467,3 +467,73 @@ def check_c14_python(run: common.Run, drv: common.Driver, rng: random.Random, fr
                                                                       "ty": G.msg_ty_json(m), "val": G.msg_val_json(m, v)},
                                    "observed_impl": got, "expected_by_spec": {"bytes": a, "decode": v}})
             R.unload(mod)
+
+
+# ===================================================================== direct BpEndecodeArray calls
+class BpType(ctypes.Structure):
+    _fields_ = [("flag", ctypes.c_int), ("nbits", ctypes.c_int), ("size", ctypes.c_int),
+                ("processor", ctypes.c_void_p), ("json_formatter", ctypes.c_void_p), ("to_flag", ctypes.c_int)]
+
+
+class BpArrayDescriptor(ctypes.Structure):
+    _fields_ = [("extensible", ctypes.c_bool), ("cap", ctypes.c_int), ("element_type", BpType)]
+
+
+FLAGS = {"bool": 1, "int": 2, "uint": 3, "byte": 4, "enum": 5}
+
+
+def check_array_grid(run: common.Run, drv: common.Driver, rng: random.Random, sc: R.Scratch, be: bool,
+                     flags: Tuple[str, ...], fraction: float, pid: str) -> None:
+    """BpEndecodeArray through ctypes with hand-built descriptors: arrays of every scalar kind at
+    every bit offset (the little-endian batch path for 8/16/32/64-bit integer elements, the
+    per-element loop otherwise and always on the big-endian build)."""
+    lib = C.runtime_lib(sc, flags + (("-DBP_BIG_ENDIAN",) if be else ()))
+    fn = lib.BpEndecodeArray
+    fn.argtypes = [ctypes.POINTER(BpArrayDescriptor), ctypes.POINTER(C.ProcCtx), ctypes.c_void_p]
+    fn.restype = None
+    kinds = kind_list() + [("enum", n, False) for n in (3, 8, 16, 24, 32, 64)]
+    for (kname, n, signed) in kinds:
+        size = storage_size(n)
+        for off in range(8):
+            if rng.random() > fraction:
+                continue
+            for cap in (1, 2, 3, 5, 8, 9):
+                for ext in ((False,) if be else (False, True)):
+                    run.evaluated()
+                    run.nontrivial((pid, "arr", be, kname, n, off, cap, ext))
+                    run.count(f"array:{'be' if be else 'le'}:{'batch' if (not be and n in (8, 16, 32, 64) and kname != 'bool') else 'loop'}")
+                    vals = [rng.choice(basis_values(n, signed, rng, 1)) if kname != "bool" else rng.randint(0, 1) for _ in range(cap)]
+                    cells = b"".join((x & ((1 << (8 * size)) - 1)).to_bytes(size, "big" if be else "little") for x in vals)
+                    desc = BpArrayDescriptor(ext, cap, BpType(FLAGS[kname], n, size, None, None, 0))
+                    nb = (16 if ext else 0) + cap * n
+                    wlen = (off + nb + 7) // 8
+                    cb, cp = _buf(cells)
+                    wb, wp = _buf(bytes(wlen))
+                    ctx = C.ProcCtx(True, off, wp)
+                    fn(ctypes.byref(desc), ctypes.byref(ctx), cp)
+                    wire, wok = _unbuf(wb, wlen)
+                    W = 0
+                    pos = off
+                    if ext:
+                        W |= cap << pos
+                        pos += 16
+                    for x in vals:
+                        W |= (x & ((1 << n) - 1)) << pos
+                        pos += n
+                    exp = W.to_bytes(wlen, "little")
+                    rep = {"input": {"call": "BpEndecodeArray", "be_build": be, "kind": kname, "nbits": n, "size": size, "cap": cap,
+                                     "extensible": ext, "bit_offset": off, "values": vals}}
+                    if wire != exp or not wok or ctx.i != off + nb:
+                        run.violation(dict(rep, kind="impl-vs-spec", observed_impl={"wire": wire.hex(), "guards": wok, "i": ctx.i},
+                                           expected_by_spec={"wire": exp.hex(), "i": off + nb}))
+                        continue
+                    if be and signed and n not in (8, 16, 32, 64):
+                        continue  # sign fix-up reads native integers: not emulable on this host (DESIGN.md C06)
+                    cb2, cp2 = _buf(bytes(len(cells)))
+                    wb2, wp2 = _buf(exp)
+                    ctx2 = C.ProcCtx(False, off, wp2)
+                    fn(ctypes.byref(desc), ctypes.byref(ctx2), cp2)
+                    got, cok = _unbuf(cb2, len(cells))
+                    if got != cells or not cok or ctx2.i != off + nb:
+                        run.violation(dict(rep, kind="impl-vs-spec", observed_impl={"cells_after_decode": got.hex(), "guards": cok, "i": ctx2.i},
+                                           expected_by_spec={"cells_after_decode": cells.hex(), "i": off + nb}))
